@@ -163,6 +163,8 @@ def validate_outputs(td, spec, hist, flags, last_time):
     for f in files:
         base = f[:-4]
         name = os.path.basename(base)
+        if name.endswith("breakdown") and "-b" not in flags:
+            continue        # left by an earlier emulation with -b: not generated by this one
         try:
             dur, nrows, lines = pv.parse_prv(open(f).read())
             pcf = pv.parse_pcf(open(base + ".pcf").read())
@@ -219,6 +221,10 @@ def run(prop, tier):
                 rels, hs = histories(spec, cat, gold, model, tier)
                 for (hname, hist, flags) in hs:
                     jobs.append((ci, spec, model, hname, hist, flags, rels))
+                # not from the initial state: the directory already holds the output of an emulation of a longer trace
+                longest = max(hs, key=lambda h: len(h[1]))
+                if len(longest[1]) > len(hs[0][1]):
+                    jobs.append((ci, spec, model, hs[0][0] + "-after-" + longest[0], hs[0][1], hs[0][2], rels, longest))
         nmain = len(configs(tier))
         for ci, spec in enumerate(order_configs(tier)):
             rels, hs = histories(spec, cat, gold, "ovni", tier)
@@ -226,13 +232,20 @@ def run(prop, tier):
         base = scratch.sub("runs")
 
         def one(j):
-            ci, spec, model, hname, hist, flags, rels = j
+            ci, spec, model, hname, hist, flags, rels = j[:7]
             td = os.path.join(base, "w%d" % os.getpid())
             req = {"ovni": cat["ovni"]["version"], model: cat[model]["version"]}
             extra = {"*": {"nosv": {"can_breakdown": True}, "nanos6": {"can_breakdown": True}}} if "-b" in flags else None
             system = emusrv.System(spec, require=req, extra_meta=extra)
             stream_of = {i: r[0] for i, r in enumerate(rels)}
-            emusrv.materialise(system, td, hist, stream_of)
+            if len(j) > 7:
+                (lname, lhist, lflags) = j[7]
+                lextra = {"*": {"nosv": {"can_breakdown": True}, "nanos6": {"can_breakdown": True}}} if "-b" in lflags else None
+                emusrv.materialise(emusrv.System(spec, require=req, extra_meta=lextra), td, lhist, stream_of)
+                rc0, _, err0 = emusrv.run_tool(emu, ["-l"] + list(lflags) + [td])
+                emusrv.materialise(system, td, hist, stream_of, keep_outputs=True)
+            else:
+                emusrv.materialise(system, td, hist, stream_of)
             rc, out, err = emusrv.run_tool(emu, ["-l"] + list(flags) + [td])
             if rc != 0:
                 lines = [l for l in err.split("\n") if "ERROR" in l][:2]
@@ -244,7 +257,7 @@ def run(prop, tier):
         allpairs = set()
         nacc = 0
         for j, (st, rc, info, pairs) in zip(jobs, res):
-            ci, spec, model, hname, hist, flags, rels = j
+            ci, spec, model, hname, hist, flags, rels = j[:7]
             ctx.add(evaluations=1, transitions=len(hist))
             if st == "rejected":
                 if rc != 1:
@@ -269,7 +282,7 @@ def run(prop, tier):
         ctx.sample({"config": configs(tier)[-1], "model": "nosv", "history": "tasks"})
         ctx.cov["rule"] = ("looms 1-2 (thorough 1-3) x processes 1-2 (1-3) x threads 1-2 x CPUs 1-2 (1-3) x rank on/off (rank order reversed w.r.t. name order, physical ids "
                            "reversed w.r.t. indices) x 8 models x {plain, every enter/leave pair on all threads, nesting, tasks with shared and private "
-                           "type labels per process, breakdown (-b), flush, affinity}; plus the row-order family: 2 looms x 2 processes with every assignment of "
+                           "type labels per process, breakdown (-b), flush, affinity; the plain history again in a directory that holds the output of an emulation of the longest one}; plus the row-order family: 2 looms x 2 processes with every assignment of "
                            "ranks 0-3 (or none) and PIDs whose string and numeric orders differ; every accepted trace's .prv/.pcf/.row validated")
         ctx.cov["distinct_nontrivial"] = nacc
         ctx.assumptions += ["histories are materialised by lib/obs.py and run through the real ovniemu binary built from the tree"]
